@@ -1456,6 +1456,9 @@ def _run(ctx, coq_ok, base_tmp):
                 # histories
                 eligible = (root_cfg is not None and root_cfg.get("dialect") is not None and not sc.decoys
                             and all(r[0] == "ok" for r in (info["via_linter"] or [("no",)]))
+                            # discovery parses every config file between the working directory and the file for ignore_paths
+                            # (also under ignore_local_config): a file that does not load is outside this property
+                            and all(r[0] == "ok" for r in info["loaded"])
                             and all(d0[0] == "ok" and d0[2].get("dialect") is not None for d0 in info["direct"])
                             and all(ar == t for (p, t), ar in zip(sc.sql, info["as_read"])))
                 if eligible and n_hist < max_hist:
